@@ -426,7 +426,21 @@ func mergeValue(c *Term, a, b Value) (Value, bool) {
 		}
 		r := make(Agg, len(x))
 		for i := range x {
-			v, ok := mergeValue(c, x[i], y[i])
+			xi, yi := x[i], y[i]
+			if i == 1 && len(x) == 3 {
+				// time.Time: the instant is a 96-bit term once computed, 64-bit in a zero value
+				if tx, ok1 := xi.(*Term); ok1 {
+					if ty, ok2 := yi.(*Term); ok2 && tx.S.K == KBV && ty.S.K == KBV && tx.S.W != ty.S.W && (tx.S.W == 96 || ty.S.W == 96) {
+						if tx.S.W < 96 {
+							xi = SExt(tx, 96)
+						}
+						if ty.S.W < 96 {
+							yi = SExt(ty, 96)
+						}
+					}
+				}
+			}
+			v, ok := mergeValue(c, xi, yi)
 			if !ok {
 				return nil, false
 			}
